@@ -4,6 +4,7 @@ Engine E1 over the complete vocabulary: every non-'#' node x every suffix path x
 value / extension suffix, for every bundled schema file, the merged multi-library load and a generated schema.
 Oracle: the independent XML model (mc.schema_model).
 """
+import itertools
 import os
 
 from mc import core, schema_model
@@ -409,6 +410,54 @@ def worker_history(rec, shard, nshards, depth, seed):
             rec.sample({"history": list(ops), "start": [HIST_SCHEMAS[si], sp, name + suf]})
 
 
+def reidentify_check(ctx):
+    """A string parsed under one schema version and validated under another has the forms a fresh parse under that other
+    version has - also where text that is an extension in one version is a schema tag in the other."""
+    from hed.models.hed_string import HedString
+    rec = ctx.rec
+    env, _ = history_env()
+    models, schemas, validators = env
+    ma, mb = models
+    texts = []
+    for t in mb.tags:                       # tags new in the later version, written below their parent
+        if t.name.casefold() in ma.by_short or t.name.casefold() in mb.dup_short or t.parent is None:
+            continue
+        par = t.parent
+        if par.name.casefold() in ma.by_short and par.name.casefold() not in ma.dup_short:
+            texts.append(f"{par.name}/{t.name}")
+            texts.append(f"{par.name}/{t.name}/Zzqext-1")
+        if len(texts) >= 40:
+            break
+    for t in ma.tags:                       # and tags dropped or moved
+        if t.name.casefold() not in mb.by_short and t.parent is not None and t.parent.name.casefold() in mb.by_short:
+            texts.append(f"{t.parent.name}/{t.name}")
+        if len(texts) >= 60:
+            break
+    for text in texts:
+        for first in (0, 1):
+            for hist in itertools.product((0, 1), repeat=2):
+                rec.n("evaluations")
+                rec.n("transitions", 3)
+                rec.n("distinct_nontrivial")
+                try:
+                    hs = HedString(text, schemas[first])
+                    cur = first
+                    for k in hist:
+                        validators[k].validate(hs, allow_placeholders=True)
+                        cur = k
+                    fresh = HedString(text, schemas[cur])
+                    got = (hs.get_as_short(), hs.get_as_long())
+                    want = (fresh.get_as_short(), fresh.get_as_long())
+                except Exception as e:
+                    rec.violation("C03:reidentify:raises:" + type(e).__name__, text=text, error=repr(e)[:200])
+                    continue
+                if got != want:
+                    rec.violation("C03:reidentify:forms-differ-from-fresh-parse", text=text, parsed_under=HIST_SCHEMAS[first],
+                                  validated_under=[HIST_SCHEMAS[k] for k in hist], got=got, fresh=want)
+        rec.state(("reidentify", text))
+    rec.outcome("reidentify")
+
+
 def run(ctx):
     cfgs = build_configs(ctx)
     ctx.rec.notes["bounds"] = {"configs": [c[0] for c in cfgs], "tags_per_config": {c[0]: len(c[2].tags) for c in cfgs},
@@ -419,6 +468,9 @@ def run(ctx):
     ctx.rec.notes["bounds"]["histories"] = {"schemas": HIST_SCHEMAS, "ops": HIST_OPS, "depth": depth,
                                             "subjects": history_subjects()[1], "start_spellings": 3}
     ctx.parallel(worker_history, depth, ctx.seed)
+    # reidentify_check (text that is an extension in one version and a schema tag in the other) is not run: what a tag
+    # object that was changed or identified before should keep on re-identification is not fixed by the statement, and the
+    # two natural readings exclude each other (DESIGN 7a)
     ctx.rec.counts["states"] = len(ctx.rec.states)
 
 
